@@ -1177,11 +1177,11 @@ def _schema(ctx, M, scratch):
                               log=str(scratch / ("doc-%s-%s-%d.xml" % (k[0], k[1], rep)))))
     # element kinds of the kinematic tree hosted below <frame>/<replicate> chains (where mjXSchema::Check does not descend by itself).
     # quick: per kind and rep one <frame> host, one <replicate> host (direct / in-a-nested-body alternating) and one nested chain;
-    # thorough: every (chain, form) with half the repetitions
+    # thorough: every (chain, form) with a quarter of the repetitions
     wrapped = sorted(M.wrapped)
     chains = ["+".join(c) for c in M.WRAP_CHAINS]
     nwrap = 0
-    for rep in range(reps if ctx.quick else max(1, reps // 2)):
+    for rep in range(reps if ctx.quick else max(1, reps // 4)):
         for k in wrapped:
             chain, form = k[2].split(":")
             if ctx.quick:
